@@ -1,6 +1,7 @@
 import GlueVerif.Sexp
 import GlueVerif.Model.ArrayUtil
 import GlueVerif.Model.Derived
+import GlueVerif.Model.DerivedHeap
 /-! Line-protocol driver for C14 (derived attributes).
 
 Values are *tokens* (`Nat`): the harness interns every distinct numpy value (dtype + bit pattern)
@@ -423,6 +424,148 @@ def histFamily (dshape : List Nat) (t0 : Tbl) (ops : List HOp) (orc : Oracle) (p
     ++ (if inverted t0 ops then "+inverted" else "") ++ (if refused t0 ops then "+refused" else "")
   driverResult impl (obsMatch spec pyout) (obsMatch spec impl) (inP t0 ops) br
 
+
+/-! ### link objects (`obj` family): programs over the heap model `Model/DerivedHeap.lean` -/
+
+section obj
+open GlueVerif.DerivedHeap
+
+abbrev HSt := DerivedHeap.State Nat Nat Int
+
+inductive OStep where
+  | build (b : Build Nat Nat Int)
+  | call (c : HCall Nat Int)
+
+def parseOpnd : Sexp → Option (Opnd Nat Int)
+  | .list [.atom "c", t] => t.toInt?.map .const
+  | .list [.atom "k", k] => k.toNat?.map .cid
+  | .list [.atom "o", n] => n.toNat?.map .link
+  | _ => none
+
+def parseOStep : Sexp → Option OStep
+  | .list [.atom "addS", k, c] => do
+    match ← parseComp c with
+    | .ok (.prim a _) => some (.call (.addS (← k.toNat?) a))
+    | _ => none
+  | .list [.atom "bin", o, l, r] => do
+    some (.build (.binary (← opCode o) (← parseOpnd l) (← parseOpnd r)))
+  | .list [.atom "fn", ks, f, rv] => do
+    some (.build (.func (← ks.toNats?) (← f.toNat?) (← rv.toBool?)))
+  | .list [.atom "cmd", text, refs, lits] => do
+    match ← parseComp (.list [.atom "X", text, refs, lits]) with
+    | .ok (.derived (.parsed p)) => some (.build (.cmd p))
+    | _ => none
+  | .list [.atom "pl", c] => do some (.build (.parsed (← c.toNat?)))
+  | .list [.atom "add", k, n] => do some (.call (.add (← k.toNat?) (← n.toNat?)))
+  | .list [.atom "radd", k, n] => do some (.call (.addRaw (← k.toNat?) (← n.toNat?)))
+  | .list [.atom "remove", k] => do some (.call (.remove (← k.toNat?)))
+  | .list [.atom "update", o, n] => do some (.call (.update (← o.toNat?) (← n.toNat?)))
+  | _ => none
+
+def hFuel (s : HSt) : Nat := 2 * (s.t.length + s.h.nodes.length) + 4
+
+def sortNats (l : List Nat) : List Nat := (l.toArray.qsort (· < ·)).toList
+
+/-- `link.get_from_ids()` of every link object ever created (as sorted lists with repetitions: the
+order inside a `ParsedComponentLink` comes from a Python `set`).  Impl: the list cells; Spec: the
+inputs the objects were defined with. -/
+def idsObs (spec : Bool) (s : HSt) : Sexp :=
+  .list ((List.range s.h.nodes.length).map fun n =>
+    ofNats (sortNats (if spec then s.h.specIds n else s.h.cellIds n)))
+
+def valsImplH (I : Interp Nat Int) (dshape : List Nat) (s : HSt) : Sexp :=
+  match normView dshape [] with
+  | none => .atom "index-error"
+  | some nv =>
+    .list (s.t.keys.map fun k =>
+      match evalH I nv (viewShapeN nv) (hFuel s) s (.inl k) with
+      | .ok v => .list [ofNat k, valSexp v]
+      | .error e => .list [ofNat k, errAtom e])
+
+def valsSpecH (I : Interp Nat Int) (dshape : List Nat) (s : HSt) : Sexp :=
+  match normView dshape [] with
+  | none => .atom "index-error"
+  | some nv =>
+    .list (s.t.keys.map fun k =>
+      let vals := (allIndices (viewShapeN nv)).map fun idx => specH I (hFuel s) s (vmapN nv idx) (.inl k)
+      if vals.all Option.isSome then
+        .list [ofNat k, .list [ofNats dshape, ofInts (vals.map (·.getD 0))]]
+      else .list [ofNat k, .atom "undefined"])
+
+def ostepValued : OStep → Bool
+  | .call (.remove _) => true
+  | .call (.update _ _) => true
+  | _ => false
+
+def ostepObs (I : Interp Nat Int) (dshape : List Nat) (spec : Bool) (st : OStep) (s : HSt)
+    (err : Bool) : Sexp :=
+  let vals := if spec then valsSpecH I dshape s else valsImplH I dshape s
+  let full := Sexp.list [ofNats s.t.keys, vals, idsObs spec s]
+  if err then .list [.atom "value-error", full]
+  else if ostepValued st then full
+  else .list [ofNats s.t.keys, .atom "-", idsObs spec s]
+
+/-- One step.  Constructor calls are the same for Impl and Spec (they also record the definition);
+a constructor that cannot be executed (`none`) aborts the run. -/
+def ostep (spec : Bool) (s : HSt) : OStep → Option (HSt × Bool)
+  | .build b => (build false s.h b).map fun h => ({ s with h := h }, false)
+  | .call c =>
+    let r := if spec then specCallH s c else implCallH s c
+    some (s.after r, r.isNone)
+
+def objInv (s : HSt) : Bool :=
+  s.h.wfB && s.h.noAliasB && s.h.coherentB && decide s.t.keys.Nodup
+
+def objFamily (dshape : List Nat) (t0 : Tbl) (steps : List OStep) (orc : Oracle) (pyout : Sexp) : String :=
+  let I := orc.interp
+  -- the initial table holds the pixel components only (no pointers): it is a pointer table as it is
+  let t0' : HTable Nat Int := t0.filterMap fun p => match p.2 with
+    | .prim a co => some (p.1, .prim a co)
+    | _ => none
+  let rec run (spec : Bool) (s : HSt) : List OStep → Option (List Sexp × HSt)
+    | [] => some ([], s)
+    | st :: rest =>
+      match ostep spec s st with
+      | none => none
+      | some (s', err) =>
+        match run spec s' rest with
+        | none => none
+        | some (obs, sf) => some (ostepObs I dshape spec st s' err :: obs, sf)
+  let rec inv (s : HSt) : List OStep → Bool
+    | [] => objInv s
+    | st :: rest => objInv s && (match ostep false s st with | some (s', _) => inv s' rest | none => false)
+  let s0 : HSt := { h := {}, t := t0' }
+  match run false s0 steps, run true s0 steps with
+  | some (iobs, si), some (sobs, ss) =>
+    let impl := Sexp.list [.list iobs, valsImplH I dshape si, idsObs false si]
+    let spec := Sexp.list [.list sobs, valsSpecH I dshape ss, idsObs true ss]
+    -- which kinds of re-use does the program contain?
+    let nodes := si.h.nodes
+    let isLink := fun (o : Opnd Nat Int) => match o with | .link _ => true | _ => false
+    let deep := fun (o : Opnd Nat Int) => match o with
+      | .link m => (match nodes[m]? with
+        | some (.binary _ l r _) => isLink l || isLink r
+        | _ => false)
+      | _ => false
+    let kindOf := fun (o : Opnd Nat Int) => match o with
+      | .link m => (match nodes[m]? with
+        | some (.func ..) => 1 | some (.parsed ..) => 2 | _ => 0)
+      | _ => 0
+    let anyB := fun (f : Opnd Nat Int → Opnd Nat Int → Bool) => nodes.any fun nd => match nd with
+      | .binary _ l r _ => f l r | _ => false
+    let has := fun (f : OStep → Bool) => steps.any f
+    let br := (if anyB (fun l _ => isLink l) then "L" else "") ++ (if anyB (fun _ r => isLink r) then "R" else "")
+      ++ (if anyB (fun l r => isLink l && l == r) then "=" else "")
+      ++ (if anyB (fun l r => deep l || deep r) then "+deep" else "")
+      ++ (if anyB (fun l r => kindOf l == 1 || kindOf r == 1) then "+fn" else "")
+      ++ (if anyB (fun l r => kindOf l == 2 || kindOf r == 2) then "+parsed" else "")
+      ++ (if has (fun s => match s with | .call (.remove _) => true | _ => false) then "+remove" else "")
+      ++ (if has (fun s => match s with | .call (.update _ _) => true | _ => false) then "+update" else "")
+    driverResult impl (obsMatch spec pyout) (obsMatch spec impl) (inv s0 steps) (if br == "" then "plain" else br)
+  | _, _ => bad "obj-build"
+
+end obj
+
 def step (line : String) : String :=
   match Sexp.parse line with
   | some (.list [.atom fam, world, pyout]) =>
@@ -441,6 +584,13 @@ def step (line : String) : String :=
         | some d, some (.ok t), some os, some o, some f => histFamily d t os ⟨o, f⟩ pyout
         | _, _, _, _, _ => bad "hist-args"
       | _ => bad "hist-args"
+    else if fam == "obj" then
+      match world with
+      | .list [dsh, tbl, steps, otab, ftab] =>
+        match dsh.toNats?, parseTable tbl, steps.toList?.bind (·.mapM parseOStep), parseOps otab, parseFns ftab with
+        | some d, some (.ok t), some os, some o, some f => objFamily d t os ⟨o, f⟩ pyout
+        | _, _, _, _, _ => bad "obj-args"
+      | _ => bad "obj-args"
     else if fam == "gram" then
       -- (gram (text) pyout): pyout = the fully parenthesised rendering produced by Python's own parser
       match world.toNats? with
